@@ -297,7 +297,6 @@ def plan(tier):
             yield f + (both, E, ("open",), "tight")
         for f in files(N3_QUICK + N4_QUICK, lf):
             yield f + (both, E, ("open",), "tight")
-        extra, extra_cr = [], []
     else:
         def low_level(tuples, crlfs, lvl):
             # the low-level route (file objects, lazy left at its default) and gzip files with one member per entry
